@@ -4,6 +4,7 @@
 package load
 
 import (
+	"path/filepath"
 	"fmt"
 	"go/ast"
 	"go/parser"
@@ -198,9 +199,29 @@ func recheck(pkgs []*packages.Package, overlay map[string][]byte) ([]*packages.P
 			}
 		}
 		var files []*ast.File
-		for _, fn := range p.CompiledGoFiles {
+		names := append([]string{}, p.CompiledGoFiles...)
+		// files the overlay adds to this package's directory (a refactoring that moves code into a new file)
+		if len(p.CompiledGoFiles) > 0 {
+			dir := filepath.Dir(p.CompiledGoFiles[0])
+			have := map[string]bool{}
+			for _, fn := range names {
+				have[fn] = true
+			}
+			var extra []string
+			for fn := range overlay {
+				if filepath.Dir(fn) == dir && !have[fn] && strings.HasSuffix(fn, ".go") && !strings.HasSuffix(fn, "_test.go") {
+					extra = append(extra, fn)
+				}
+			}
+			sort.Strings(extra)
+			names = append(names, extra...)
+		}
+		for _, fn := range names {
 			var src any
 			if b, ok := overlay[fn]; ok {
+				if len(b) == 0 {
+					continue // deleted by the overlay
+				}
 				src = b
 			}
 			f, err := parser.ParseFile(fset, fn, src, parser.ParseComments|parser.SkipObjectResolution)
